@@ -66,10 +66,8 @@ Definition ex_ops : list mop :=
 
 Example ex_ops_ok : Forall op_ok ex_ops.
 Proof.
-  unfold ex_ops. repeat constructor; cbn [op_ok wf_item]; try exact I; try (vm_compute; reflexivity).
-  cbn [ex_sub wf_msg wf_fields wf_repr wf_items wf_item fnames].
-  repeat split; try (vm_compute; reflexivity); try exact I;
-    try (repeat constructor; cbn [In]; intuition discriminate).
+  unfold ex_ops. repeat constructor; cbn [op_ok wf_item]; try exact I; try (vm_compute; reflexivity);
+    try (intro HIn; vm_compute in HIn; intuition discriminate).
 Qed.
 
 Example ex_ops_result : wf (run ex_ops empty_msg) /\ fields_len (msg_fields (run ex_ops empty_msg)) = 3.
